@@ -1,7 +1,7 @@
 (* C06 - Symbolic arithmetic on models is pointwise arithmetic on energies.
    Only statements; every proof is `exact <lemma>`. *)
 From Coq Require Import List ZArith QArith Qcanon Bool Arith.
-From Dimod Require Import Base.Util Model.Poly Model.Sym Model.SymStore Proofs.PolyFacts Proofs.SymFacts Proofs.SymStoreFacts.
+From Dimod Require Import Base.Util Model.Poly Model.Sym Model.SymStore Proofs.PolyFacts Proofs.SymFacts Proofs.SymStoreFacts Model.OpsLang Gen.Gen_Ops Model.Ops Proofs.OpsFacts.
 Import ListNotations.
 Open Scope Qc_scope.
 
@@ -166,6 +166,56 @@ Theorem C06_cmp_move_terms :
   (sat s (val_energy d smp) 0 <-> sat s (val_energy a smp) (val_energy b smp)).
 Proof. exact cmp_move_terms. Qed.
 Print Assumptions C06_cmp_move_terms.
+
+(* ---- the operator methods themselves, as translated from the source (Gen/Gen_Ops.v) ---- *)
+(* the rejection rule of update() read from cyqm_template.pyx.pxi is the model's rule *)
+Theorem C06_gen_update_rule : forall a b, gen_upd_err a b = upd_err a b.
+Proof. exact gen_upd_err_eq. Qed.
+Print Assumptions C06_gen_update_rule.
+
+(* the equal-label table read from QM.__mul__ turns the double loop into pmul_linear; the table read
+   from BQM.__mul__ does so for a BQM whose linear terms are over its own (BINARY / SPIN) variables *)
+Theorem C06_gen_qm_product_table : forall vt a b, pmul_linear_tab qm_table vt a b = pmul_linear vt a b.
+Proof. exact pmul_linear_qm_table. Qed.
+Print Assumptions C06_gen_qm_product_table.
+
+Theorem C06_gen_bqm_product_table :
+  forall v1 t ta a b, bqm_terms_ok v1 ta a -> sub_tab ta t ->
+    pmul_linear_tab bqm_table (fun _ => v1) a b = pmul_linear (tvt t) a b.
+Proof. exact pmul_linear_bqm_table. Qed.
+Print Assumptions C06_gen_bqm_product_table.
+
+(* running the translated __add__/__radd__/__iadd__ (resp. __sub__/__rsub__/__isub__) of BQM, QM and
+   views through Python's operator protocol gives, for every pair of operand kinds (number, BQM of
+   either vartype with or without variables, QM, view), the result the model specifies: same error,
+   or same class, same variable table and the same polynomial function *)
+Theorem C06_gen_add_correct : forall a b, wfv a -> wfv b -> requiv (g_op OAdd a b) (v_add a b).
+Proof. exact g_add_correct. Qed.
+Print Assumptions C06_gen_add_correct.
+
+Theorem C06_gen_iadd_correct : forall a b, wfv a -> wfv b -> requiv (g_iop OAdd a b) (v_add a b).
+Proof. exact g_iadd_correct. Qed.
+Print Assumptions C06_gen_iadd_correct.
+
+Theorem C06_gen_sub_correct : forall a b, wfv a -> wfv b -> requiv (g_op OSub a b) (v_sub a b).
+Proof. exact g_sub_correct. Qed.
+Print Assumptions C06_gen_sub_correct.
+
+Theorem C06_gen_isub_correct : forall a b, wfv a -> wfv b -> requiv (g_iop OSub a b) (v_sub a b).
+Proof. exact g_isub_correct. Qed.
+Print Assumptions C06_gen_isub_correct.
+
+(* hence the energy of whatever they return is the sum / difference of the operands' energies, with
+   the variable information of both operands kept *)
+Theorem C06_gen_add_spec :
+  forall a b v, wfv a -> wfv b -> (g_op OAdd a b = Ok v \/ g_iop OAdd a b = Ok v) -> op_spec a b v Qcplus.
+Proof. exact g_add_spec. Qed.
+Print Assumptions C06_gen_add_spec.
+
+Theorem C06_gen_sub_spec :
+  forall a b v, wfv a -> wfv b -> (g_op OSub a b = Ok v \/ g_iop OSub a b = Ok v) -> op_spec a b v Qcminus.
+Proof. exact g_sub_spec. Qed.
+Print Assumptions C06_gen_sub_spec.
 
 (* ---- non-vacuity: the hypotheses are satisfiable on non-trivial data ---- *)
 Definition xb := Var KBin 0%nat 0 1.
